@@ -259,7 +259,7 @@ def run(ctx):
               # two unknown lifetimes at a contravariant / covariant position (found red by this check, fixed in 9147c48)
               (N(("HAdt", ids["ContraL"]), [L.lt_var(0)]), N(("HAdt", ids["ContraL"]), [L.lt_var(1)])),
               (N(("HRef", "Not"), [L.lt_var(1), L.U32]), N(("HRef", "Not"), [L.lt_var(0), L.U32]))]
-    pairs = pinned + pairs
+    pairs = corpus_pairs(ids) + pinned + pairs
     solver_cases, meta = [], []
     for (a, b) in pairs:
         txt = goal_text(a, b, names)
@@ -372,6 +372,23 @@ def run(ctx):
                        "non-trivial = composite types" % ctx.n(3, 4))
     if not ok:
         ctx.violation({"kind": "proof", "broken": why}, no_input=True)
+
+
+def corpus_pairs(ids):
+    """Minimised past failures: /verif/corpus/C29/*.json with {"A": sexp, "B": sexp}; ADTs by name."""
+    import glob, json, os
+    def fix(t):
+        if isinstance(t, tuple) and t[0] == "Node":
+            h = t[1]
+            if isinstance(h, tuple) and h[0] == "HAdt" and isinstance(h[1], str):
+                h = ("HAdt", ids[h[1]])
+            return ("Node", h, [fix(c) for c in t[2]])
+        return t
+    out = []
+    for f in sorted(glob.glob(os.path.join(core.VERIF, "corpus", "C29", "*.json"))):
+        o = json.load(open(f))
+        out.append((fix(sx.parse_sexp(o["A"])), fix(sx.parse_sexp(o["B"]))))
+    return out
 
 
 def known_class(a, b):
